@@ -23,7 +23,7 @@ func init() {
 		Builds:              []string{"default", "386"}, // the 386 build runs 1/12 of the random classes on a 32-bit target
 		Scale386:            12,
 		Parallel:            4, // cases are judged on 4 goroutines per shard: the library functions are stateless, shared state inside them shows up as wrong verdicts
-		Rule: "prove: (seed, alpha) with alpha of every length 0..700 (thorough 0..2200) and around 2^10..2^13, proof bytes compared with the RFC 9381 model, then Verify/ProofToHash/Proof.Hash/SetBytes/MarshalBinary agreement; verify: (key, alpha, proof) triples judged two-sidedly against the model: honest, every single-bit flip of honest proofs, Gamma+T for the 8 torsion points, non-canonical and undecodable Gamma, s+L / s in {L-1, L, L+1}, random 80-byte strings, lengths 0..100 and 80+256j / 80+65536 (a valid proof with a tail), wrong keys, every small-order key encoding (canonical and not), all 38 y>=p key encodings, undecodable keys, and forged proofs that would verify for small-order keys if validate_key were dropped; decode: SetBytes/UnmarshalBinary/ProofToHash succeed iff the model decodes, and re-encode to the input; unique: all accepted proofs for one (key, alpha) give one hash. reuse: eight decodes into ONE Proof object (SetBytes/UnmarshalBinary mixed, undecodable inputs in between): Bytes() and Hash() must describe the bytes decoded last, and the slices handed out after earlier decodes must keep their contents. Keys, alphas and proofs of the prove class are passed as windows into larger buffers whose pattern behind the slice must survive. related: back-to-back Prove/Verify on equal-length alphas that share a long prefix. concurrent: 16 goroutines call Verify/Prove at once against precomputed expectations. " +
+		Rule: "prove: (seed, alpha) with alpha of every length 0..700 (thorough 0..2200) and around 2^10..2^13, proof bytes compared with the RFC 9381 model, then Verify/ProofToHash/Proof.Hash/SetBytes/MarshalBinary agreement; verify: (key, alpha, proof) triples judged two-sidedly against the model: honest, every single-bit flip of honest proofs, Gamma+T for the 8 torsion points, proofs crafted by the key owner around Gamma' = x*H+T with the nonce drawn until c*T is (valid per RFC 9381) or is not (invalid) the neutral element, non-canonical and undecodable Gamma, s+L / s in {L-1, L, L+1}, random 80-byte strings, lengths 0..100 and 80+256j / 80+65536 (a valid proof with a tail), wrong keys, every small-order key encoding (canonical and not), all 38 y>=p key encodings, undecodable keys, and forged proofs that would verify for small-order keys if validate_key were dropped; decode: SetBytes/UnmarshalBinary/ProofToHash succeed iff the model decodes, and re-encode to the input; unique: all accepted proofs for one (key, alpha) give one hash. reuse: eight decodes into ONE Proof object (SetBytes/UnmarshalBinary mixed, undecodable inputs in between): Bytes() and Hash() must describe the bytes decoded last, and the slices handed out after earlier decodes must keep their contents. Keys, alphas and proofs of the prove class are passed as windows into larger buffers whose pattern behind the slice must survive. related: back-to-back Prove/Verify on equal-length alphas that share a long prefix. concurrent: 16 goroutines call Verify/Prove at once against precomputed expectations. " +
 			"Non-trivial: distinct cases outside the purely random classes.",
 		Assumptions: []string{"SHA-512 of the Go standard library", "math/big", "the RFC 9381 model in harness/oracle/ecvrf (self-tested against the three RFC 9381 ECVRF-EDWARDS25519-SHA512-TAI examples)"},
 		SelfTest:    ecvrf.SelfTest,
@@ -41,7 +41,7 @@ func init() {
 			}
 			return map[string]string{"public_key": fw.Hex(p[0]), "alpha": fw.Hex(p[1]), "proof": fw.Hex(p[2])}
 		},
-		Required: []string{"prove ok", "inputs passed with spare capacity stayed intact", "verify model=accept impl=accept", "verify model=reject impl=reject", "decode model=ok impl=ok", "decode model=fail impl=fail", "unique checked", "reuse executions", "related executions", "concurrent executions"},
+		Required: []string{"gamma_torsion_crafted model=accept", "gamma_torsion_crafted model=reject", "prove ok", "inputs passed with spare capacity stayed intact", "verify model=accept impl=accept", "verify model=reject impl=reject", "decode model=ok impl=ok", "decode model=fail impl=fail", "unique checked", "reuse executions", "related executions", "concurrent executions"},
 	})
 }
 
@@ -679,6 +679,32 @@ func gen(g *fw.Gen) {
 				emitV("forged_smallorder_key", yEnc, alpha, pi)
 				break
 			}
+		}
+	}
+	// proofs crafted by the key owner with a torsion component in Gamma: Gamma' = x*H + T, nonce k, and
+	// c = challenge(Y, H, Gamma', kB, kH), s = k + c*x. The verification recomputes V = s*H - c*Gamma' =
+	// kH - c*T, so the proof is valid per RFC 9381 exactly when c*T = O (k is drawn until c is, or is not,
+	// a multiple of the order of T). The model decides; both kinds are emitted.
+	for n := g.ShareOf(96, 4000); n > 0; n-- {
+		seed := g.Bytes(32)
+		pub, x, _ := ed.PublicFromSeed(seed)
+		alpha := randAlpha(g)
+		H, _ := ecvrf.EncodeToCurve(pub, alpha)
+		T := tors[1+g.Rng.Intn(7)]
+		gm := H.Mul(x).Add(T)
+		wantValid := n%2 == 0
+		for tries := 0; tries < 200; tries++ {
+			k := ed.LE(g.Bytes(40))
+			k.Mod(k, ed.L)
+			c := ecvrfChallenge(pub, H.Encode(), gm.Encode(), ed.BaseMul(k).Encode(), H.Mul(k).Encode())
+			if T.Mul(c).IsIdentity() != wantValid {
+				continue
+			}
+			sc := new(big.Int).Mul(c, x)
+			sc.Add(sc, k).Mod(sc, ed.L)
+			pi := append(append(append([]byte(nil), gm.Encode()...), ed.ToLE(c, 16)...), ed.ToLE(sc, 32)...)
+			emitV("gamma_torsion_crafted", pub, alpha, pi)
+			break
 		}
 	}
 	// random
